@@ -61,6 +61,31 @@ void h_tensor_roundtrip(void)
   VC_REACH();
 }
 
+void h_tensor_serialize(void)
+{
+  /* serialising half only (the deserialiser's loop bounds are symbolic for the solver): layout and length of the
+   * serialised form of a tensor whose two blocks have different shapes */
+  tensor *t;
+  dvector *ser;
+  double a[GMAX][GMAX], b[GMAX][GMAX];
+  /* NewTensor + NewTensorMatrix: the block table is allocated once (a realloc'ed table makes the block pointers, and with
+   * them every size, symbolic for the solver) */
+  NewTensor(&t, 2); initDVector(&ser);
+  NewTensorMatrix(t, 0, VC_R, VC_C);
+  NewTensorMatrix(t, 1, VC_R2, VC_C2);
+  for(size_t i = 0; i < VC_R; i++) for(size_t j = 0; j < VC_C; j++) { a[i][j] = VC_IN_DBL(); t->m[0]->data[i][j] = a[i][j]; }
+  for(size_t i = 0; i < VC_R2; i++) for(size_t j = 0; j < VC_C2; j++) { b[i][j] = VC_IN_DBL(); t->m[1]->data[i][j] = b[i][j]; }
+  serialize_tensor(t, ser);
+  VC_CHECK("serialised tensor has 1 + sum(2 + rows*cols) entries", ser->size == 1 + (2 + (size_t)VC_R * VC_C) + (2 + (size_t)VC_R2 * VC_C2));
+  VC_CHECK("serialised tensor starts with the order and the first block's shape", ser->data[0] == 2.0 && ser->data[1] == (double)VC_R && ser->data[2] == (double)VC_C);
+  size_t off = 3;
+  for(size_t i = 0; i < VC_R; i++) for(size_t j = 0; j < VC_C; j++) { double sv = ser->data[off++]; VC_CHECK("block 0 cells follow in row-major order", VC_SAME(sv, a[i][j])); }
+  VC_CHECK("second block's shape follows the first block's cells", ser->data[off] == (double)VC_R2 && ser->data[off + 1] == (double)VC_C2);
+  off += 2;
+  for(size_t i = 0; i < VC_R2; i++) for(size_t j = 0; j < VC_C2; j++) { double sv = ser->data[off++]; VC_CHECK("block 1 cells follow in row-major order", VC_SAME(sv, b[i][j])); }
+  VC_REACH();
+}
+
 void h_list_roundtrip(void)
 {
   /* two vectors of lengths VC_R and VC_C (either may be empty) */
